@@ -8,7 +8,7 @@ func init() {
 			"not decided: the age comparison itself (lookback-1/lookback/lookback+1 ms), the arithmetic that folds @ into an offset, the slicing arithmetic of seriesShard and the re-basing sums of sample IDs (value-level)",
 		}})
 	property(&Property{ID: "C03", Level: "other",
-		Rules: []string{"R-STALE", "R-TRUNCDIV", "R-KERNELBOUNDS", "R-SENTINEL", "R-ITERERR"},
+		Rules: []string{"R-STALE", "R-TRUNCDIV", "R-KERNELBOUNDS", "R-SENTINEL", "R-ITERERR", "R-SLABCAP"},
 		Explanation: "Structural necessary conditions of range-function evaluation: no stale sample enters a window (buffered and sought samples); per-second division uses the untruncated range; every window kernel guards its indexing for 0/1-sample windows (presence rule of irate/idelta/rate-like kernels >= 2 points); the matrix call site honours the 'no output' sentinel; iterator failures surface.",
 		NotDecided: []string{
 			"not decided: window maintenance across steps (previousPoints overlap reuse, ReduceDelta), inclusive/exclusive window edges and the numerical values of the kernels (value-level); a structural diff against the reference kernels was rejected because it fires on behaviour-preserving rewrites",
@@ -26,20 +26,20 @@ func init() {
 			"not decided: which pairs match, the values, error text and the step at which an ambiguous match is reported (value-level); an operator missing from the operation tables falls back correctly and is covered by C08",
 		}})
 	property(&Property{ID: "C06", Level: "other",
-		Rules: []string{"R-SENTINEL", "R-POINTFIELDS", "R-PAIRING", "R-ZEROSTEP", "R-SAMPLE0", "R-STEPBOUND", "R-EMPTYSERIES", "R-POINT0", "R-TABLETS"},
+		Rules: []string{"R-SENTINEL", "R-POINTFIELDS", "R-PAIRING", "R-ZEROSTEP", "R-SAMPLE0", "R-STEPBOUND", "R-EMPTYSERIES", "R-POINT0", "R-TABLETS", "R-OUTALIAS", "R-HASHSAME"},
 		Explanation: "Structural necessary conditions of instant functions and scalars: the instant-function call site drops samples its kernel declares absent; every Point field a kernel reads is stored by the call site; IDs/values are written in pairs (time(), scalar()); generator operators cannot stall on a zero step and never emit past the window end; scalar operands are indexed only behind a length test.",
 		NotDecided: []string{
 			"not decided: function values, step alignment of scalar arguments that end early, replication of @-pinned vectors (value-level)",
 		}})
 	property(&Property{ID: "C08", Level: "other",
-		Rules: []string{"R-VOCAB"},
+		Rules: []string{"R-VOCAB", "R-ERRPROP"},
 		Explanation: "For the complete vocabulary of the pinned parser (every key of parser.Functions, every aggregation and binary operator token, every concrete Expr type, read from the module's source on every run): each item is either handled by a case/table entry of plan construction or reaches a branch that returns an error built from a sentinel of execution/parse; errors created during construction are sentinel-built, propagate unchanged and are checked before results are used; every Expr-typed child of a supported node is planned; unsupported-ness is decided in the construction tree (not in Next/Series); triggerFallback tests every sentinel; the query counter is bumped exactly once with the label of the path taken; the fallback call receives the caller's own arguments.",
 		NotDecided: []string{
 			"not decided: that natively evaluated constructs return the reference's results (C01)",
 			"trusted: the induction over the AST that combines the obligations, the parser's type checking of argument kinds",
 		}})
 	property(&Property{ID: "C09", Level: "other",
-		Rules: []string{"R-SLOTPTR", "R-LABELFRESH", "R-MATCHEQ"},
+		Rules: []string{"R-SLOTPTR", "R-LABELFRESH", "R-MATCHEQ", "R-ATOFFSET"},
 		Explanation: "Structural necessary conditions of the logical optimizers: every traversal hands out pointers to real slots of the tree, so a replacement (made after in-place edits of the replaced node) lands in the tree in every syntactic position; matcher slices are edited in place only on fresh copies; the subset test that licenses replacing a selector compares name, type and value of the matchers.",
 		NotDecided: []string{
 			"not decided: that the rewrites preserve semantics (filter evaluation on absent labels, repeated label names, matcher union). Three defects of that kind exist on the pinned tree and are reported in DESIGN.md; no exact shape rule for them was found",
@@ -51,7 +51,7 @@ func init() {
 			"not decided: that no selector is left outside a remote execution for every tree shape; commutation with the union for all data (value-level)",
 		}})
 	property(&Property{ID: "C11", Level: "other",
-		Rules: []string{"R-SHARD", "R-LINEAR", "R-GOSHARED", "R-SHARDCOPY"},
+		Rules: []string{"R-SHARD", "R-LINEAR", "R-GOSHARED", "R-SHARDCOPY", "R-SLABCAP"},
 		Explanation: "Structural necessary conditions of determinism: no shard is lost or duplicated for any shard count; no operator is consumed by two parents; every variable shared with a goroutine is written index-privately, under a mutex that covers all its accesses, or before a channel/WaitGroup hand-off; shard slices handed to operators are private copies of the shared series list.",
 		NotDecided: []string{
 			"not decided: slicing arithmetic, arrival-order dependent tie-breaking, float summation order, NaN ordering (value-/schedule-level)",
@@ -93,19 +93,19 @@ func init() {
 			"not decided: sort.Sort on uncopied (already sorted) storage labels performs no writes - assumed; closing of remote queries that are created but never executed",
 		}})
 	property(&Property{ID: "C18", Level: "other",
-		Rules: []string{"R-INITBEFOREUSE", "R-PAIRING", "R-ONEPERSTEP", "R-STALE", "R-LINEAR", "R-STEPBOUND", "R-SHARDCOPY", "R-TSTAMP", "R-EMPTYSERIES", "R-TABLETS"},
+		Rules: []string{"R-INITBEFOREUSE", "R-PAIRING", "R-ONEPERSTEP", "R-STALE", "R-LINEAR", "R-STEPBOUND", "R-SHARDCOPY", "R-TSTAMP", "R-EMPTYSERIES", "R-TABLETS", "R-OUTALIAS"},
 		Explanation: "Structural necessary conditions of the stream contract: operators serve batches whether or not Series was called first; IDs and values are written in pairs; one step vector per step; no staleness marker is emitted; one consumer per operator; generator loops are bounded by the window end; shards renumber private copies; a step vector's timestamp comes from the step grid, not from sample data.",
 		NotDecided: []string{
 			"not decided: uniqueness and range of sample IDs, monotone step order, 'ended stays ended' (value-level)",
 		}})
 	property(&Property{ID: "C19", Level: "other",
-		Rules: []string{"R-LABELBUILD", "R-RESULTSHAPE", "R-STALE", "R-TSTAMP", "R-LABELFRESH"},
+		Rules: []string{"R-LABELBUILD", "R-RESULTSHAPE", "R-STALE", "R-TSTAMP", "R-LABELFRESH", "R-HASHSAME"},
 		Explanation: "Structural necessary conditions of result well-formedness: label sets are not grown by raw appends; the matrix is sorted, empty series pruned, instant samples stamped with the evaluation time; no staleness marker is emitted; kernels stamp their result with the step time; label sets shared through the selector pool are not edited in place.",
 		NotDecided: []string{
 			"not decided: pairwise distinct label sets after name dropping, timestamps on the grid for every operator, overflow/denormal values (value-level)",
 		}})
 	property(&Property{ID: "C20", Level: "other",
-		Rules: []string{"R-ENGINEWO", "R-GLOBALS", "R-POOLSCOPE", "R-FOREIGNAPPEND", "R-USEAFTERPUT", "R-LABELFRESH", "R-RESULTCOPY"},
+		Rules: []string{"R-ENGINEWO", "R-GLOBALS", "R-POOLSCOPE", "R-FOREIGNAPPEND", "R-USEAFTERPUT", "R-LABELFRESH", "R-RESULTCOPY", "R-OUTALIAS"},
 		Explanation: "Structural necessary conditions of statelessness: an engine holds nothing a query can write; no kept append onto a caller's or the package's slice; recycled buffers are not read again; storage-owned label sets (which returned results alias) are never edited in place; Exec copies sample values out of pooled step vectors (no pooled slice type is reachable from promql.Result).",
 		NotDecided: []string{
 			"not decided: equality with a fresh engine after data changes (needs running); the storage's own caches",
